@@ -1071,7 +1071,9 @@ def r60_range_map_collect(text, base_line=0):
             raise LostAnchor("R60: `.collect()` does not follow the mapped closure")
         body = text[m.end():k].rstrip().rstrip(",").rstrip()
         d = 1 + max([int(x) for x in re.findall(r"__n_(\d+)", body)] or [0])
-        ty = "Vec<" * d + "f32" + ">" * d
+        inner = [x.count("Vec<") for x in re.findall(r"let mut __n_\d+: ((?:Vec<)+)f32", body)]
+        nv = (1 + max(inner)) if inner else (2 if re.match(r"vec!\[", body) else 1)       # a `vec![x; n]` leaf is itself a Vec<f32>
+        ty = "Vec<" * nv + "f32" + ">" * nv
         new = "({ let mut __n_%d: %s = Vec::new(); for __r_%d in 0..%s { __n_%d.push(%s); } __n_%d })" % (d, ty, d, n, d, body, d)
         new += "\n" * max(0, text[m.start():k + tail.end()].count("\n") - new.count("\n"))
         log.append("R60 line %d: `(0..%s).map(|_| ..).collect()` -> counted loop pushing the closure value into a new `%s`" % (base_line + text.count("\n", 0, m.start()), n, ty))
